@@ -741,6 +741,15 @@ func runC04RequestIndex(c *Ctx) {
 // success return nor another call of m is reachable.
 func requirePropagates(c *Ctx, rule string, fn *ssa.Function, m CallMatcher, what string) {
 	c.Fn(FuncName(fn))
+	if len(CallSinks(fn, m, false)) == 0 {
+		// the call was moved into a function new since the anchor snapshot: its error must end
+		// that helper, and the helper's error must end fn
+		if h, via := descendTo(fn, m); h != fn && via != nil && via.Parent() == fn && ErrIndex(h) >= 0 {
+			requirePropagates(c, rule, h, m, what)
+			requirePropagates(c, rule, fn, func(cc *ssa.CallCommon) bool { return cc == &via.Call }, what+" (inside "+h.Name()+")")
+			return
+		}
+	}
 	g := GErrNil(what+"()==nil", m)
 	fail := g.FailEdges(fn)
 	construct := FuncName(fn) + "|propagates " + what + " error"
